@@ -305,7 +305,7 @@ func (st *State) typeFacts(v Val, t types.Type) {
 	case VPtr:
 		if x.Ref != nil && !x.Ref.IsLit() {
 			st.addFact(Ge(x.Ref, IntLit(0)))
-			st.addFact(Lt(x.Ref, IntLit(refBase)))
+			st.addFact(st.refBound(x.Ref))
 		}
 	case VSlice:
 		if !x.Len.IsLit() || !x.Cap.IsLit() || !x.Off.IsLit() {
@@ -317,7 +317,7 @@ func (st *State) typeFacts(v Val, t types.Type) {
 		}
 		if !x.Arr.IsLit() {
 			st.addFact(Ge(x.Arr, IntLit(0)))
-			st.addFact(Lt(x.Arr, IntLit(refBase)))
+			st.addFact(st.refBound(x.Arr))
 			// nil slice has no elements
 			st.addFact(Implies(Eq(x.Arr, IntLit(0)), And(Eq(x.Len, IntLit(0)), Eq(x.Cap, IntLit(0)))))
 		}
@@ -328,7 +328,7 @@ func (st *State) typeFacts(v Val, t types.Type) {
 	case VMap:
 		if !x.Ref.IsLit() {
 			st.addFact(Ge(x.Ref, IntLit(0)))
-			st.addFact(Lt(x.Ref, IntLit(refBase)))
+			st.addFact(st.refBound(x.Ref))
 		}
 	case VStruct:
 		u := x.T.Underlying().(*types.Struct)
@@ -345,6 +345,32 @@ func (st *State) typeFacts(v Val, t types.Type) {
 }
 
 const refBase = 1000000
+
+// refBound: an unknown reference denotes an object that exists now: one of the pre-state
+// (below refBase, or a global), or one allocated earlier on this path - never one that a
+// later allocation will return.
+func (st *State) refBound(t *Term) *Term {
+	if preStateTerm(t) {
+		return Lt(t, IntLit(refBase))
+	}
+	return Or(Lt(t, IntLit(int64(refBase+st.x.nextRef+1))), Ge(t, IntLit(2000000000)))
+}
+
+// preStateTerm: is t a function input or a value read from the initial heap? Such references
+// denote objects that existed before the call, i.e. lie below refBase.
+func preStateTerm(t *Term) bool {
+	switch t.Op {
+	case "sym":
+		return strings.HasPrefix(t.Name, "in_") || strings.HasPrefix(t.Name, "free_")
+	case "select":
+		a := t.Args[0]
+		for a.Op == "select" {
+			a = a.Args[0]
+		}
+		return a.Op == "sym" && strings.HasPrefix(a.Name, "H0:")
+	}
+	return false
+}
 
 // ---- heap addressing ----------------------------------------------------------------
 
